@@ -136,15 +136,16 @@ BASES = ["/", "/readme.txt", "/dir", "/dir/file.txt", "/dir/sub/deep.txt", "/box
          "/arc.zip/m.pyg", "/arc.zip/md", "/arc.zip/t.html.tal", "/run.sh", "/hello.pyg", "/t.html.tal", "/c.txt.gz",
          "/dir/inner.zip", "/dir/inner.zip/x.txt", "/1/dir", "/0/readme.txt", "", "readme.txt", "box.mbox",
          "/secret.txt", "/rootx/file.txt", "/cwd/box.mbox", "/URL:http://x/../y", "URL:file://../secret.txt",
-         "/..|/MAILDIR-MESSAGE/1", "/..?", "/..|", "/dir/..|/MAILDIR-MESSAGE/1", "/../rootx|/MAILDIR-MESSAGE/1", "/dir/../..|/MAILDIR-MESSAGE/1"]
+         "x/file.txt", "x/readme.txt", "x", "x/new/1.msg", "x|/MAILDIR-MESSAGE/1", "/..|/MAILDIR-MESSAGE/1", "/..?", "/..|", "/dir/..|/MAILDIR-MESSAGE/1", "/../rootx|/MAILDIR-MESSAGE/1", "/dir/../..|/MAILDIR-MESSAGE/1"]
 
 
+NOSLASH = ["x/file.txt", "x/readme.txt", "x", "x/new/1.msg", "x/new", "readme.txt", "dir/file.txt", "x/../root/readme.txt", "arc.zip/a.txt"]
 ZIP_BASES = [b for b in BASES if ".zip" in b or ".mbox" in b or "md" in b] * 2
 
 
 @st.composite
 def _case(draw):
-    mode = draw(st.sampled_from(["struct", "struct", "struct", "struct", "raw"]))
+    mode = draw(st.sampled_from(["struct", "struct", "struct", "struct", "raw", "noslash"]))
     c = {"full": draw(st.booleans()), "cwd": draw(st.sampled_from(CWDS)),
          "worldB": draw(st.sampled_from(["absent", "diff"])), "form": draw(st.sampled_from(FORMS))}
     if mode == "raw":
@@ -156,6 +157,13 @@ def _case(draw):
                                max_size=8).map(b"".join),
                       st.sampled_from([b"\r\n", b" HTTP/1.0\r\n\r\n", b" 0\r\n", b"\t+\r\n", b"\t$\r\n"])))))
         c["rawtls"] = draw(st.booleans())
+        return c
+    if mode == "noslash":
+        # a path without its leading slash, as a sloppy URL-protocol client sends it: root + selector must not become
+        # a sibling of the root ("<root>x/...")
+        c["form"] = draw(st.sampled_from(["spartan", "spartan", "http", "wap", "head"]))
+        c.update(noslash=True, sel=draw(st.sampled_from(NOSLASH)) + draw(st.sampled_from(["", "", "/", "|/MAILDIR-MESSAGE/1", "?x"])),
+                 inj="", style="noslash", layers=draw(st.sampled_from([0, 0, 1])), enc_all=False, lower_hex=draw(st.booleans()))
         return c
     base = draw(st.sampled_from(BASES + ZIP_BASES))
     style = draw(st.sampled_from(["seg", "chr", "aim", "none", "none"]))
@@ -178,7 +186,7 @@ def _case(draw):
         sep = draw(st.sampled_from(["/", "/", "\\", "//"]))
         sel = base.rstrip("/") + sep + inj.replace("/", sep if sep != "//" else "/")
     sel += draw(st.sampled_from(SUFFIX))
-    c.update(sel=sel, inj=inj, style=style, layers=draw(st.sampled_from([0, 0, 1, 1, 2, 3])),
+    c.update(noslash=draw(st.booleans()), sel=sel, inj=inj, style=style, layers=draw(st.sampled_from([0, 0, 1, 1, 2, 3])),
              enc_all=draw(st.booleans()), lower_hex=draw(st.booleans()))
     return c
 
@@ -302,8 +310,8 @@ def check_case(case, ctx):
                     sent = clients.pct(sent, safe=clients._UNRESERVED + b"\\|%;:@&=+$,!*'()")
                 else:
                     sent = clients.pct(sent, safe=clients._UNRESERVED + b"%\\|;:@&=+$,!*'()")
-                if not sent.startswith(b"/"):
-                    sent = b"/" + sent
+                if not sent.startswith(b"/") and not (case.get("noslash") and fam in ("spartan", "http", "head", "wap") and sent):
+                    sent = b"/" + sent  # (otherwise the path travels without a leading slash, as a sloppy client sends it)
                 req = clients.encode(form, b"", raw_path=sent)
                 ssel = _server_selector(form, sent)
         cwd = {"cwd": os.path.join(S, "cwd"), "S": S, "root": root, "/": "/"}[case["cwd"]]
